@@ -587,10 +587,16 @@ def _mtvrp_generate(u, scale_demand):
     gen, (dmin, dmax, bmin, bmax) = _mtvrp_gen(u, N, min_loc=lmin, max_loc=lmax, capacity=cap, max_time=M, distance_limit=L, speed=speed,
                                                scale_demand=scale_demand, subsample=False)
     # customers do not coincide with the depot (generate_time_windows divides by the depot distance; a measure-zero event, A10):
-    # stated on the first draw of the run, the locations
-    from tvc import methods
-    draw = z3.Function(f"uniform{methods._RAND[0] + 2}", z3.IntSort(), z3.IntSort(), z3.IntSort(), z3.RealSort())
-    u.requires(u.forall((B, N), lambda b, i: OR(draw(b, 0, 0) != draw(b, zint(i) + 1, 0), draw(b, 0, 1) != draw(b, zint(i) + 1, 1))))
+    # stated on the draw of the locations when it is made (the [B, N + 1, 2] uniform draw, wherever it comes in the order of draws)
+    loc_draws = []
+
+    def on_draw(kind, d):
+        if len(d.shape) == 3 and isinstance(d.shape[2], int) and d.shape[2] == 2:
+            loc_draws.append(d)
+            ds = d.snap()
+            ops.assume_forall((B, N), lambda I: OR(ds((I[0], 0, 0)) != ds((I[0], zint(I[1]) + 1, 0)), ds((I[0], 0, 1)) != ds((I[0], zint(I[1]) + 1, 1))))
+
+    u.ctx.draw_hooks = [on_draw]
     u.inline(*[(MTG, "MTVRPGenerator." + f) for f in ("generate_locations", "generate_demands", "generate_open_route", "generate_speed",
                                                       "generate_time_windows", "generate_distance_limit")])
     td = u.run(MTG, "MTVRPGenerator._generate", [B], selfobj=gen, record=False, asserts="record")
@@ -601,7 +607,7 @@ def _mtvrp_generate(u, scale_demand):
                           shape_is(td["time_windows"], (B, N + 1, 2)), shape_is(td["service_time"], (B, N + 1)), tuple(td.batch_size) == (B,),
                           *[shape_is(td[k], (B, 1)) for k in ("distance_limit", "vehicle_capacity", "capacity_original", "open_route", "speed")]))
     u.prove("locs-in-range", AND(td["locs"].at(b, j, c) >= lmin, td["locs"].at(b, j, c) <= lmax))
-    u.prove("locs-are-the-first-draw", td["locs"].at(b, j, c) == draw(b, j, c))
+    u.prove("locs-are-the-location-draw", len(loc_draws) == 1 and td["locs"].at(b, j, c) == loc_draws[0].at(b, j, c))
     u.prove("depot-has-no-demand", AND(td["demand_linehaul"].at(b, 0) == 0, td["demand_backhaul"].at(b, 0) == 0))
     un = (lambda v: _unscale(v, cap)) if scale_demand else (lambda v: v)
     l, h = un(td["demand_linehaul"].at(b, i + 1)), un(td["demand_backhaul"].at(b, i + 1))       # in demand units
